@@ -1,3 +1,4 @@
+import Nebula.Base.Wire
 /-
 The protobuf wire subset used by `cert/cert_v1.pb.go` (`RawNebulaCertificate`, `RawNebulaCertificateDetails`,
 `RawNebulaEncryptedData` …) as `google.golang.org/protobuf` reads and writes it: varints (≤ 10 bytes, 10th
@@ -11,12 +12,8 @@ abbrev Bytes := List UInt8
 
 /-! ### writer -/
 
-/-- `protowire.AppendVarint` (minimal form) with explicit fuel (a uint64 needs at most 10 groups). -/
-def encVarintAux : Nat → Nat → Bytes
-  | 0, _ => []
-  | fuel + 1, v => if v < 128 then [UInt8.ofNat v] else UInt8.ofNat (v % 128 + 128) :: encVarintAux fuel (v / 128)
-
-def encVarint (v : Nat) : Bytes := encVarintAux 10 (v % 2 ^ 64)
+/-- `protowire.AppendVarint` of a `uint64` (the shared definition of `Base/Wire.lean`). -/
+def encVarint (v : Nat) : Bytes := Wire.appendVarint (v % 2 ^ 64)
 
 def encTag (num wt : Nat) : Bytes := encVarint (num * 8 + wt)
 
@@ -33,20 +30,11 @@ def uToInt32 (v : Nat) : Int := if v % 2 ^ 32 < 2 ^ 31 then (v % 2 ^ 32 : Nat) e
 
 /-! ### reader -/
 
-/-- `protowire.ConsumeVarint`: value (mod 2^64 by construction) and rest; `none` = truncated or overflow. -/
-def decVarintAux : Nat → Nat → Nat → Bytes → Option (Nat × Bytes)
-  | 0, _, _, _ => none
-  | fuel + 1, shift, acc, s =>
-    match s with
-    | [] => none
-    | b :: rest =>
-      let idx := 10 - (fuel + 1)        -- 0-based index of this byte
-      if idx == 9 then
-        if b.toNat < 2 then some (acc + b.toNat * 2 ^ shift, rest) else none
-      else if b.toNat < 128 then some (acc + b.toNat * 2 ^ shift, rest)
-      else decVarintAux fuel (shift + 7) (acc + (b.toNat - 128) * 2 ^ shift) rest
-
-def decVarint (s : Bytes) : Option (Nat × Bytes) := decVarintAux 10 0 0 s
+/-- `protowire.ConsumeVarint` (shared definition): value and rest; `none` = truncated or overflow. -/
+def decVarint (s : Bytes) : Option (Nat × Bytes) :=
+  match Wire.consumeVarint s with
+  | .ok (v, n) => some (v, s.drop n)
+  | .error _ => none
 
 /-- `protowire.ConsumeBytes`. -/
 def decBytes (s : Bytes) : Option (Bytes × Bytes) :=
